@@ -472,8 +472,10 @@ def run(check, tier: str, seed: int, replay: str | None = None) -> int:
                 continue
             # determinism guard: the same case must fail the same way when run again
             again = _isolated_any([(index, cases[index])], check, tier)
-            again_fps = sorted(v['fingerprint'] for v in again.get('violations', []))
-            first_fps = sorted(v['fingerprint'] for v in results[index]['violations'])
+            # (the same *kinds* of failure: how many sub-cases of one kind fail may legitimately vary where the case
+            # itself runs children with a random hash seed)
+            again_fps = sorted({v['fingerprint'] for v in again.get('violations', [])})
+            first_fps = sorted({v['fingerprint'] for v in results[index]['violations']})
             preceding = []
             if 'harness_error' in again or again_fps != first_fps:
                 # The harness owns every source of nondeterminism (no threads, clocks or randomness), so a
@@ -481,7 +483,7 @@ def run(check, tier: str, seed: int, replay: str | None = None) -> int:
                 # in the code under test.  Replay it after the cases its worker ran before it.
                 preceding = results[index].get('preceding', [])
                 sequel = _isolated_any([(k, cases[k]) for k in preceding] + [(index, cases[index])], check, tier)
-                sequel_fps = sorted(v['fingerprint'] for v in sequel.get('violations', []))
+                sequel_fps = sorted({v['fingerprint'] for v in sequel.get('violations', [])})
                 if 'harness_error' in sequel or sequel_fps != first_fps:
                     print(f"HARNESS-NONDETERMINISM property={property_id} case={index}: {first_fps} in its worker, "
                           f"{again_fps or again.get('harness_error')} alone, {sequel_fps or sequel.get('harness_error')} after its predecessors")
